@@ -64,6 +64,7 @@ class Run(object):
         mode = scn.get('peer_mode', 'writer')
         if tr == 'fd':
             r, wr = k.pipe(cap)
+            self.fd_pipe = r
             fd = k.alloc_fd(r)
             inw = None
             if mode != 'writer':
@@ -109,6 +110,7 @@ class Run(object):
                 self.peer = peers.Actor(w, k, proc, peers.writer(out_w, steps, self.wrote), react, 'child')
                 self.peer.start(0)
                 self.popen_in = in_r
+                self.popen_out = out_r
                 return proc, in_w, out_r
             w.popen_setup = setup
             child = T.SimPopenSpawn(['simchild'], **kw)
